@@ -47,6 +47,8 @@ def install() -> None:
     tl.DEFAULT_SELECTOR_SELECT_TIMEOUT = 0
     hh.DEFAULT_SELECTOR_SELECT_TIMEOUT = 0
     logging.disable(logging.CRITICAL)
+    import warnings
+    warnings.filterwarnings('ignore', category=RuntimeWarning, message='coroutine .* was never awaited')
     _PATCHED = True
 
 
